@@ -105,11 +105,16 @@ func parseRaceLogs(glob string) (reports []raceReport, files int) {
 				a, bb = bb, a
 			}
 			r.Frames = [2]string{a, bb}
-			r.Key = "race:" + a + "+" + bb
+			r.Key = "race:" + keyFrame(a) + "+" + keyFrame(bb)
 			reports = append(reports, r)
 		}
 	}
 	return
+}
+
+// keyFrame drops the receiver punctuation: nbtns.(*T).M -> nbtns.T.M
+func keyFrame(f string) string {
+	return strings.NewReplacer("(*", "", "(", "", ")", "").Replace(f)
 }
 
 var fatalRe = regexp.MustCompile(`(?m)^(fatal error|panic): (.*)$`)
